@@ -1,7 +1,92 @@
-(* API commands for the Layout package (stub until the package lands). *)
-From Coq Require Import ZArith List.
-From Labella Require Import Extract.Codec.
+(* API commands 300..339: one layer's placement (C01-C03).
+   300: nodeSp lineSp minP? maxP? items  ->  1, rounded positions, exact positions
+        (positions in the order of the layer list sorted stably by target)
+   301: minP? maxP? -> layer width handed to the distributor (option)
+   302: as 300 -> 1, positions of ALL solver variables (walls included), exact
+   303: d w g -> pava d w g (exact), the bare chain solver *)
+From Coq Require Import ZArith QArith List Bool.
+From Labella Require Import Extract.Codec Base.QUtil Layout.Pava Layout.Layer.
 Import ListNotations.
 Open Scope Z_scope.
 
-Definition api_layout (cmd : Z) (a : list Z) : list Z := bad_input.
+Definition d_item : dec item := fun l =>
+  match d_q l with
+  | Some (t, r) =>
+      match d_q r with
+      | Some (w, r') =>
+          match d_bool r' with
+          | Some (s, r'') => Some (mkItem t w s, r'')
+          | None => None
+          end
+      | None => None
+      end
+  | None => None
+  end.
+
+Definition d_layer : dec (lopts * list item) := fun l =>
+  match d_q l with
+  | Some (ns, r1) =>
+    match d_q r1 with
+    | Some (ls, r2) =>
+      match d_opt d_q r2 with
+      | Some (mn, r3) =>
+        match d_opt d_q r3 with
+        | Some (mx, r4) =>
+          match d_list d_item r4 with
+          | Some (its, r5) => Some ((mkOpts ns ls mn mx, its), r5)
+          | None => None
+          end
+        | None => None
+        end
+      | None => None
+      end
+    | None => None
+    end
+  | None => None
+  end.
+
+Definition api_solve_layer (a : list Z) : list Z :=
+  match d_layer a with
+  | Some ((o, its), _) =>
+      1 :: e_list (fun z => [z]) (solve_layer o its) ++ e_list e_q (solve_layer_exact o its)
+  | None => bad_input
+  end.
+
+Definition api_layer_width (a : list Z) : list Z :=
+  match d_opt d_q a with
+  | Some (mn, r) =>
+      match d_opt d_q r with
+      | Some (mx, _) => e_opt e_q (layer_width mn mx)
+      | None => bad_input
+      end
+  | None => bad_input
+  end.
+
+Definition api_solve_full (a : list Z) : list Z :=
+  match d_layer a with
+  | Some ((o, its), _) => 1 :: e_list e_q (solve_full o (sorted_items its))
+  | None => bad_input
+  end.
+
+Definition api_pava (a : list Z) : list Z :=
+  match d_list d_q a with
+  | Some (d, r) =>
+      match d_list d_q r with
+      | Some (w, r') =>
+          match d_list d_q r' with
+          | Some (g, _) => 1 :: e_list e_q (pava d w g)
+          | None => bad_input
+          end
+      | None => bad_input
+      end
+  | None => bad_input
+  end.
+
+Definition api_layout (cmd : Z) (a : list Z) : list Z :=
+  match cmd with
+  | 300 => api_solve_layer a
+  | 301 => api_layer_width a
+  | 302 => api_solve_full a
+  | 303 => api_pava a
+  | _ => bad_input
+  end.
